@@ -15,7 +15,7 @@ from rdflib.term import BNode, URIRef
 
 from .. import explore, seams
 from .. import run as R
-from ..canon import tkey
+from ..canon import canon, tkey
 from ..vocab import T, TERMS, is_falsy
 
 ID = "C19"
@@ -46,6 +46,14 @@ def _mem_class(x):
 
 class State:
     pass
+
+
+def _rename(x, ren):
+    if isinstance(x, tuple):
+        if x in ren:
+            return ren[x]
+        return tuple(_rename(y, ren) for y in x)
+    return x
 
 
 class Spec:
@@ -146,8 +154,10 @@ class Spec:
         lc = _len_class(n)
 
         def bad(clause, **kw):
-            kw["model_list"] = m
-            v.append(("%s|%s" % (lc, clause), kw))
+            # one defect shows through many reads; report the first failing clause of a sweep
+            if not v:
+                kw["model_list"] = m
+                v.append(("%s|%s" % (lc, clause), kw))
 
         # chain well-formedness: exactly the decoys plus n cells from the head
         triples = {tuple(tkey(x) for x in t) for t in S.g}
@@ -232,7 +242,10 @@ class Spec:
             i += 1
             node = S.g.value(node, RDF.rest, any=True)
         rows = sorted((tuple(ren.get(tkey(x), tkey(x)) for x in t) for t in S.g), key=repr)
-        return (tuple(S.m), tuple(rows))
+        # every field of the Collection object itself is part of the state (a cached cursor, a
+        # remembered tail... would otherwise be merged away); cells renamed by chain position
+        hidden = _rename(canon({k: v for k, v in vars(S.c).items() if k != "graph"}), ren)
+        return (tuple(S.m), tuple(rows), hidden)
 
     def model_key(self, S):
         return tuple(S.m)
